@@ -79,6 +79,43 @@ def family(rng, idx):
     members.append((("with_path", base), lambda: URL(base).with_path(URL(base).path, keep_query=True, keep_fragment=True)))
     members.append((("origin+", base), lambda: URL(base).origin()))
     members.append((("splitresult", base), lambda: URL(URL(base).__getstate__()[0], encoded=True)))
+
+    # the same value reached by perturb-and-restore modifier chains over objects that were already hashed,
+    # ordered and sorted (so whatever those operations memoise exists before the derivation)
+    def used(u):
+        hash(u)
+        u < u
+        u <= u
+        sorted([u, u])
+        {u: 1}
+        return u
+
+    def chain(perturb, restore):
+        t = used(URL(base))
+        v = used(perturb(t))
+        return restore(v, t)
+
+    # non-round-trip: a DIFFERENT used source (built from text) is modified into the target value
+    def mk(q2=q, f2=f, path2=path, port2=port):
+        return f"{pre}{user + '@' if user else ''}{host}{port2}{path2}{q2}{f2}"
+
+    members.append((("with_query-from-other", base), lambda: used(URL(mk(q2="?zz=9"))).with_query(q[1:]) if q else used(URL(mk(q2="?zz=9"))).with_query(None)))
+    members.append((("update_query-from-other", base), lambda: used(URL(mk(q2=""))).update_query(q[1:]) if q and "&" not in q else URL(base)))
+    members.append((("extend_query-from-other", base), lambda: used(URL(mk(q2=""))).extend_query(q[1:]) if q and not q.endswith("&") else URL(base)))
+    members.append((("without-from-other", base), lambda: used(URL(mk(q2=(q + "&zzq=1") if q else "?zzq=1"))).without_query_params("zzq") if not q.endswith("&") else URL(base)))
+    members.append((("with_fragment-from-other", base), lambda: used(URL(mk(f2="#zz"))).with_fragment(f[1:] if f and f != "#" else None)))
+    members.append((("with_port-from-other", base), lambda: used(URL(mk(port2=":4242"))).with_port(int(port[1:]) if port else None)))
+    members.append((("with_path-from-other", base), lambda: used(URL(mk(path2="/zz/y"))).with_path(URL(base).path, keep_query=True, keep_fragment=True)))
+    members.append((("q-roundtrip-after-use", base), lambda: chain(lambda t: t.with_query("zz=9"), lambda v, t: v.with_query(t.query_string) if t.raw_query_string else v.with_query(None))))
+    members.append((("extend-after-use", base), lambda: chain(lambda t: t.with_query(None), lambda v, t: v.extend_query(t.query_string) if t.raw_query_string and not t.raw_query_string.endswith("&") else t)))
+    members.append((("update-after-use", base), lambda: chain(lambda t: t, lambda v, t: v.update_query("")) ))
+    members.append((("without-after-use", base), lambda: chain(lambda t: t.extend_query(zzq="1") if not t.raw_query_string.endswith("&") else t, lambda v, t: v.without_query_params("zzq") if not t.raw_query_string.endswith("&") else t)))
+    members.append((("frag-roundtrip-after-use", base), lambda: chain(lambda t: t.with_fragment("zz"), lambda v, t: v.with_fragment(t.fragment or None))))
+    members.append((("path-roundtrip-after-use", base), lambda: chain(lambda t: t.with_path("/zz", keep_query=True, keep_fragment=True), lambda v, t: v.with_path(t.path, keep_query=True, keep_fragment=True) if t.raw_authority else t)))
+    members.append((("port-roundtrip-after-use", base), lambda: chain(lambda t: t.with_port(4242) if t.raw_authority else t, lambda v, t: v.with_port(t.explicit_port) if t.raw_authority else t)))
+    members.append((("scheme-roundtrip-after-use", base), lambda: chain(lambda t: t.with_scheme("foo") if t.raw_authority else t, lambda v, t: v.with_scheme(t.scheme) if t.raw_authority and t.scheme else t)))
+    members.append((("user-roundtrip-after-use", base), lambda: chain(lambda t: t.with_user("zz") if t.raw_authority else t, lambda v, t: v.with_user(t.user).with_password(t.password) if t.raw_authority and t.user else t)))
+    members.append((("host-roundtrip-after-use", base), lambda: chain(lambda t: t.with_host("zz.example") if t.raw_authority else t, lambda v, t: v.with_host(t.host) if t.raw_authority and t.host else t)))
     return base, members
 
 
